@@ -15,3 +15,20 @@ use vstd::prelude::*;
 pub broadcast axiom fn axiom_clone_eq<T: Clone>(a: &T, b: T)
     ensures #[trigger] call_ensures(T::clone, (a,), b) ==> *a == b;
 }
+
+// ---- R-const wrappers: constants Verus' front end rejects syntactically ----
+pub uninterp spec fn f64_nan() -> f64;
+#[verifier::external_body]
+pub fn vf64_nan() -> (r: f64)
+    ensures r == f64_nan()
+{ f64::NAN }
+pub uninterp spec fn f64_max() -> f64;
+#[verifier::external_body]
+pub fn vf64_max() -> (r: f64)
+    ensures r == f64_max()
+{ f64::MAX }
+
+// ---- generic name order: `a > b` on the node-name type, through vstd's PartialOrd model (assumed lawful in name_type_ok) ----
+pub open spec fn tgt<T: PartialOrd>(a: T, b: T) -> bool {
+    a.partial_cmp_spec(&b) == Some(core::cmp::Ordering::Greater)
+}
